@@ -27,6 +27,7 @@ const basePrelude = `
 (declare-sort Seq_S_primitive_E 0)
 (declare-sort Seq_Val 0)
 (declare-sort Seq_u8 0)
+(declare-sort Seq_Ref 0)
 (declare-datatypes ((Sl 0)) (((mk.Sl (Sl.base Int) (Sl.off Int) (Sl.len Int) (Sl.cap Int)))))
 (declare-datatypes ((S_primitive_Decimal128 0)) (((mk.S_primitive_Decimal128 (S_primitive_Decimal128.h (_ BitVec 64)) (S_primitive_Decimal128.l (_ BitVec 64))))))
 (declare-datatypes ((S_primitive_Binary 0)) (((mk.S_primitive_Binary (S_primitive_Binary.Subtype (_ BitVec 8)) (S_primitive_Binary.Data Seq_u8)))))
@@ -53,11 +54,17 @@ const basePrelude = `
 (declare-fun atbv.Seq_Val (Seq_Val (_ BitVec 64)) Val)
 (declare-fun lenbv.Seq_u8 (Seq_u8) (_ BitVec 64))
 (declare-fun atbv.Seq_u8 (Seq_u8 (_ BitVec 64)) (_ BitVec 8))
+(declare-fun len.Seq_Ref (Seq_Ref) Int)
+(declare-fun at.Seq_Ref (Seq_Ref Int) Int)
+(declare-fun lenbv.Seq_Ref (Seq_Ref) (_ BitVec 64))
+(declare-fun atbv.Seq_Ref (Seq_Ref (_ BitVec 64)) Int)
 (declare-fun gs.len (Str) Int)
 (declare-fun gs.lenbv (Str) (_ BitVec 64))
 (declare-fun gs.at (Str Int) (_ BitVec 8))
 (declare-fun gs.atbv (Str (_ BitVec 64)) (_ BitVec 8))
 (declare-fun alloc (Int) Int)
+(declare-fun sl.ix (Int Int) Int)
+(assert (forall ((a Int) (b Int)) (! (= (sl.ix a b) (+ a b)) :pattern ((sl.ix a b)))))
 (declare-sort Dec 0)
 (declare-fun dec.zero () Dec)
 (declare-fun arr.seq.u8 ((Array Int (_ BitVec 8)) Int) Seq_u8)
@@ -100,6 +107,7 @@ func newSorts(mode ArithMode) *Sorts {
 	s.seqs["Seq_S_primitive_E"] = "S_primitive_E"
 	s.seqs["Seq_Val"] = sVal
 	s.seqs["Seq_u8"] = bvSort(8)
+	s.seqs["Seq_Ref"] = sRef
 	s.heapAll = mode == ModeInt
 	return s
 }
